@@ -81,27 +81,46 @@ theorem C06_last_admin (parse : Bytes → Option Uuid) (s : PState) (op : Op) (h
 def IsListReq (body : Bytes) : Prop :=
   ∃ objs rest, Tlv.decode body [] = some objs ∧ aget objs tReq = some (5 :: rest)
 
-/-- List exactness over histories. Run any history (pair-setup completions and arbitrary
-    `POST /pairings` requests on arbitrary connections) from the empty state, and let `a` be the
-    pairing list an observer derives *from the answers alone* (`observe`: success answers to add /
-    remove and finished pair-setups; errors change nothing; removing the last admin empties it).
-    Then a list request on a verified admin session changes nothing and its answer, decoded with
-    the independent TLV8 list decoder, is exactly `a`: every current pairing, in registration
-    order, with the identifier bytes it was registered with, its key and its admin flag.
-    (`parse [] = none`: the empty string is not a UUID.) -/
-theorem C06_list_exact (parse : Bytes → Option Uuid) (hparse : parse [] = none) (ops : List Op)
-    (c : Conn) (body : Bytes) (hbody : IsListReq body)
-    (hc : c.adminNow (run parse PState.empty ops)) :
-    ∃ items, handlePairings parse (run parse PState.empty ops) ⟨c, body⟩
-        = (run parse PState.empty ops, .tlv items false, false) ∧
-      decodePairings (Tlv.encode items) = some (runBoth parse PState.empty [] ops).2.listing := by
-  have hrel := rel_run parse ops PState.empty [] (rel_empty parse)
+/-- List exactness over histories. Start in the empty state — or in any state `s0` whose maps
+    represent an observer's pairing list `a0` (`Rel`, e.g. the state a restart reloaded) — and run
+    any history (pair-setup completions and arbitrary `POST /pairings` requests on arbitrary
+    connections). Let `a` be the pairing list an observer derives *from the answers alone*
+    (`observe`: success answers to add / remove and finished pair-setups; errors change nothing;
+    removing the last admin empties it). Then a list request on a verified admin session changes
+    nothing and its answer, decoded with the independent TLV8 list decoder, is exactly `a`: every
+    current pairing, in registration order, with the identifier bytes it was registered with, its
+    key and its admin flag. (`parse [] = none`: the empty string is not a UUID.) -/
+theorem C06_list_exact (parse : Bytes → Option Uuid) (hparse : parse [] = none)
+    (s0 : PState) (a0 : Abs) (h0 : Rel parse s0 a0) (ops : List Op)
+    (c : Conn) (body : Bytes) (hbody : IsListReq body) (hc : c.adminNow (run parse s0 ops)) :
+    ∃ items, handlePairings parse (run parse s0 ops) ⟨c, body⟩
+        = (run parse s0 ops, .tlv items false, false) ∧
+      decodePairings (Tlv.encode items) = some (runBoth parse s0 a0 ops).2.listing := by
+  have hrel := rel_run parse ops s0 a0 h0
   rw [runBoth_fst] at hrel
   obtain ⟨henc, u, hcu, hadm⟩ := hc
   obtain ⟨objs, rest, hd, hrt⟩ := hbody
-  refine ⟨listItems (run parse PState.empty ops), ?_, ?_⟩
+  refine ⟨listItems (run parse s0 ops), ?_, ?_⟩
   · simp [handlePairings, hcu, henc, hadm, hd, hrt]
   · rw [decodePairings_list, rel_listing parse hparse _ _ hrel]
+
+/-- … in particular for every history from the empty state. -/
+theorem C06_list_exact_from_empty (parse : Bytes → Option Uuid) (hparse : parse [] = none)
+    (ops : List Op) (c : Conn) (body : Bytes) (hbody : IsListReq body)
+    (hc : c.adminNow (run parse PState.empty ops)) :
+    ∃ items, handlePairings parse (run parse PState.empty ops) ⟨c, body⟩
+        = (run parse PState.empty ops, .tlv items false, false) ∧
+      decodePairings (Tlv.encode items) = some (runBoth parse PState.empty [] ops).2.listing :=
+  C06_list_exact parse hparse _ _ (rel_empty parse) ops c body hbody hc
+
+/-- The admin test itself follows the answers: a controller is admin in the reached state iff the
+    observer's list holds it with an odd permission byte. -/
+theorem C06_admin_follows_answers (parse : Bytes → Option Uuid) (ops : List Op) (u : Uuid) :
+    isAdmin (run parse PState.empty ops) u =
+      (runBoth parse PState.empty [] ops).2.any (fun e => e.u = u ∧ e.perm % 2 = 1) := by
+  have hrel := rel_run parse ops PState.empty [] (rel_empty parse)
+  rw [runBoth_fst] at hrel
+  exact rel_isAdmin parse _ _ hrel u
 
 /-- The same at the level of one state: whatever the three maps hold, the list answer decodes to
     exactly the entries of `paired_clients`, in order, with the recorded identifier bytes, key and
